@@ -1,6 +1,7 @@
 package main
 
 import (
+	"go/types"
 	"fmt"
 	"go/token"
 	"sort"
@@ -746,7 +747,13 @@ func c10Navigation(c *Ctx, p *Prog, m *Model) {
 	}
 	fe := p.Method(p.Slog, "Entry", "forEachLogger")
 	if fe != nil && len(fe.Params) == 3 {
+		// the callback and the depth are recognised by type, whatever their order
 		cb, lvl := fe.Params[1], fe.Params[2]
+		icb, ilvl := 1, 2
+		if _, isFn := fe.Params[1].Type().Underlying().(*types.Signature); !isFn {
+			cb, lvl = fe.Params[2], fe.Params[1]
+			icb, ilvl = 2, 1
+		}
 		var probs []string
 		ncb, nrec := 0, 0
 		for _, cs := range callsIn(fe) {
@@ -779,11 +786,11 @@ func c10Navigation(c *Ctx, p *Prog, m *Model) {
 				if !okElem {
 					probs = append(probs, "the recursion is not on the elements of the receiver's items")
 				}
-				l, okL := linOf(cc.Args[2])
+				l, okL := linOf(cc.Args[ilvl])
 				if !okL || l.c != 1 || l.atoms[lvl] != 1 || len(l.atoms) != 1 {
 					probs = append(probs, "children are not visited at depth+1")
 				}
-				if cc.Args[1] != ssa.Value(cb) {
+				if cc.Args[icb] != ssa.Value(cb) {
 					probs = append(probs, "the callback is not passed down")
 				}
 				// only the range condition guards it
@@ -805,7 +812,7 @@ func c10Navigation(c *Ctx, p *Prog, m *Model) {
 			ok := false
 			for _, cs := range callsTo(each, fe) {
 				cc := cs.Common()
-				if v, isC := constInt(cc.Args[2]); isC && v == 0 && cc.Args[0] == ssa.Value(receiver(each)) && cc.Args[1] == ssa.Value(each.Params[1]) {
+				if v, isC := constInt(cc.Args[ilvl]); isC && v == 0 && cc.Args[0] == ssa.Value(receiver(each)) && cc.Args[icb] == ssa.Value(each.Params[1]) {
 					ok = true
 				}
 			}
